@@ -541,3 +541,137 @@ Fixpoint write (h : heap) (a : loc) (c : cell) : heap :=
   | _ :: r, O => c :: r
   | x :: r, S a' => x :: write r a' c
   end.
+
+(* ---- the DeepCopy methods themselves, statement by statement ----
+   The three templates of deepcopy.go that declare a DeepCopy method (map case :80-88, struct case :91-99, default
+   case :131-140) are fixed texts:
+       func (in *T) DeepCopy() *T { if in == nil { return nil }; out := new(T);  in.DeepCopyInto(out); return out }
+       func (in T)  DeepCopy() T  { if in == nil { return nil }; out := make(T); in.DeepCopyInto(out); return out }
+   and the harness abstracts a generated function to [MPtrCopy] / [MMapCopy] only when its text is exactly that statement
+   list (harness/internal/c17/parse.go rePtrCopy / reMapCopy; anything else is [MUnknown]).  [copy_body] is that
+   statement list; [run_ptr_copy] / [run_map_copy] execute it, the receiver being possibly nil.  [exec_copy] /
+   [exec_copy_map] above are the non-nil paths (Proofs/DeepCopySem.v deep_copy_some, deep_copy_map_is_exec_copy_map). *)
+Inductive cstmt :=
+| CNilGuard      (* if in == nil { return nil } *)
+| CNew           (* out := new(T) *)
+| CMake          (* out := make(T) *)
+| CCallInto      (* in.DeepCopyInto(out) *)
+| CReturnOut.    (* return out *)
+
+Definition copy_body (m : method) : list cstmt :=
+  match m with
+  | MPtrCopy _ _ => [CNilGuard; CNew; CCallInto; CReturnOut]
+  | MMapCopy _ => [CNilGuard; CMake; CCallInto; CReturnOut]
+  | _ => []
+  end.
+
+(* the declared DeepCopy method of type n with a pointer receiver / with a map receiver: its body *)
+Fixpoint find_ptr_copy (ms : list method) (n : bytes) : option (list cstmt) :=
+  match ms with
+  | [] => None
+  | m :: r =>
+      match m with
+      | MPtrCopy t _ => if bytes_eqb t n then Some (copy_body m) else find_ptr_copy r n
+      | _ => find_ptr_copy r n
+      end
+  end.
+
+Fixpoint find_map_copy (ms : list method) (n : bytes) : option (list cstmt) :=
+  match ms with
+  | [] => None
+  | m :: r =>
+      match m with
+      | MMapCopy t => if bytes_eqb t n then Some (copy_body m) else find_map_copy r n
+      | _ => find_map_copy r n
+      end
+  end.
+
+Definition has_map_into (ms : list method) (n : bytes) : bool :=
+  existsb (fun m => match m with MMapInto t => bytes_eqb t n | _ => false end) ms.
+
+(* the local variable out of a DeepCopy body with a pointer receiver *)
+Inductive ostate :=
+| OUndeclared                 (* not declared yet: a use does not compile *)
+| ONew                        (* out = new(T): points to the zero value of T *)
+| OVal (v : value).           (* *out = v *)
+
+(* a body with receiver [inp] (None = the nil pointer); [into v o h] = (&v).DeepCopyInto(&o).
+   Panic = "does not compile" or a run-time panic.  DeepCopyInto on a nil receiver reads *in / in.F: a nil dereference
+   (conservative for a struct without fields, whose DeepCopyInto reads nothing). *)
+Fixpoint run_ptr_copy (into : value -> value -> heap -> res (value * heap)) (inp : option value)
+    (ss : list cstmt) (out : ostate) (h : heap) : res (option value * heap) :=
+  match ss with
+  | [] => Panic                                             (* missing return *)
+  | CNilGuard :: r =>
+      match inp with
+      | None => Ok (None, h)                                (* in == nil: return nil *)
+      | Some _ => run_ptr_copy into inp r out h
+      end
+  | CNew :: r => run_ptr_copy into inp r ONew h
+  | CMake :: _ => Panic                                     (* make of a struct / scalar type *)
+  | CCallInto :: r =>
+      match inp, out with
+      | _, OUndeclared => Panic
+      | None, _ => Panic                                    (* nil dereference inside DeepCopyInto *)
+      | Some v, ONew => let! (v', h') := into v (zero_like v) h in run_ptr_copy into inp r (OVal v') h'
+      | Some v, OVal o => let! (v', h') := into v o h in run_ptr_copy into inp r (OVal v') h'
+      end
+  | CReturnOut :: _ =>
+      match out, inp with
+      | OVal v', _ => Ok (Some v', h)
+      | ONew, Some v => Ok (Some (zero_like v), h)
+      | ONew, None => Panic       (* a non-nil pointer to a zero T: not nil; T's shape is only known from *in here *)
+      | OUndeclared, _ => Panic
+      end
+  end.
+
+(* (in *T).DeepCopy() for the type named n, the receiver possibly nil: the declared method's body is executed *)
+Definition deep_copy (fuel : nat) (G : pkg) (ms : list method) (n : bytes) (p : option value) (h : heap)
+  : res (option value * heap) :=
+  match find_ptr_copy ms n with
+  | Some body => run_ptr_copy (exec_into fuel G ms n) p body OUndeclared h
+  | None => Panic                                           (* no such method *)
+  end.
+
+(* a body with a map receiver [inp] (None = the nil map); out: the location make(T) returned.
+   in.DeepCopyInto(out) is MMapInto's fixed body `for k := range in { out[k] = in[k] }` (no iteration on a nil map) *)
+Fixpoint run_map_copy (into_declared : bool) (inp : option loc) (ss : list cstmt) (out : option loc) (h : heap)
+  : res (value * heap) :=
+  match ss with
+  | [] => Panic
+  | CNilGuard :: r =>
+      match inp with
+      | None => Ok (VMap None, h)
+      | Some _ => run_map_copy into_declared inp r out h
+      end
+  | CMake :: r => let '(h', a) := alloc h (CMap []) in run_map_copy into_declared inp r (Some a) h'
+  | CNew :: _ => Panic                                      (* new(T) is a *T, not a T *)
+  | CCallInto :: r =>
+      if into_declared then
+        match out, inp with
+        | None, _ => Panic
+        | Some _, None => run_map_copy into_declared inp r out h
+        | Some a, Some b =>
+            match nth_error h b with
+            | Some (CMap es) => run_map_copy into_declared inp r out (write h a (CMap es))
+            | _ => Panic
+            end
+        end
+      else Panic
+  | CReturnOut :: _ =>
+      match out with
+      | Some a => Ok (VMap (Some a), h)
+      | None => Panic
+      end
+  end.
+
+(* (in T).DeepCopy() for a map type, the receiver possibly nil *)
+Definition deep_copy_map (ms : list method) (n : bytes) (v : value) (h : heap) : res (value * heap) :=
+  match v with
+  | VMap l =>
+      match find_map_copy ms n with
+      | Some body => run_map_copy (has_map_into ms n) l body None h
+      | None => Panic
+      end
+  | _ => Panic
+  end.
